@@ -209,32 +209,54 @@ Proof.
 Qed.
 
 (** * Per-operation preservation *)
-Lemma inv_store r loc ok s : inv s -> inv (fst (store r loc ok s)).
+Lemma reserve_placed r loc s s1 v i :
+  inv s -> reserve r loc s = RPlaced s1 v i ->
+  inv s1 /\ vfind r (vols s) = None /\ loc = Some (v, i) /\ valid_free s v i = true /\
+  exists vl, vget v (vols s) = Some vl /\ sget i (vslots vl) = Some None /\
+             vols s1 = vupd v (wr i (Some r) 1) (vols s).
 Proof.
-  intros I. unfold store.
-  destruct (vfind r (vols s)) as [[v0 j0]|] eqn:F.
-  { destruct loc; cbn; [exact I|now apply inv_add_known]. }
-  destruct (has_free s); cbn; [|destruct loc; exact I].
-  destruct loc as [[v i]|]; [|exact I].
-  destruct (valid_free s v i) eqn:V; cbn; [|exact I].
-  apply valid_free_slot in V as [vl [G [_ S]]].
+  intros I. unfold reserve.
+  destruct (vfind r (vols s)) as [[v0 j0]|] eqn:F; [destruct loc; discriminate|].
+  destruct (has_free s); cbn [negb]; [|destruct loc; discriminate].
+  destruct loc as [[v' i']|]; [|discriminate].
+  destruct (valid_free s v' i') eqn:V; cbn [negb]; [|discriminate].
+  destruct (vol_usage v' 1 (set_slot v' i' (Some r) (add_known r s))) as [s1'| |] eqn:U; try discriminate.
+  intros [= <- <- <-].
+  pose proof V as V'. apply valid_free_slot in V' as [vl [G [_ S]]].
   pose proof (inv_add_known s r I) as Ia.
-  destruct (vol_usage v 1 (set_slot v i (Some r) (add_known r s))) as [s1| |] eqn:U; cbn; try exact I.
   apply usage_set_slot in U as [vl' [G' [_ [Hv [Hm [_ [Ht Hc]]]]]]].
   rewrite add_known_vols in G'. rewrite G in G'; injection G' as <-.
-  assert (I1 : inv s1).
-  { eapply (inv_wr (add_known r s) v i (Some r) 1 vl None s1); eauto.
-    - now rewrite add_known_vols.
-    - rewrite add_known_vols. apply inj_place; auto. }
-  destruct ok; cbn; [exact I1|].
-  destruct (vol_usage v (-1) (set_slot v i None s1)) as [s2| |] eqn:U2; cbn; try exact I1.
-  apply usage_set_slot in U2 as [vl2 [G2 [_ [Hv2 [Hm2 [_ [Ht2 Hc2]]]]]]].
-  assert (S2 : sget i (vslots vl2) = Some (Some r)).
-  { rewrite Hv, add_known_vols in G2.
-    rewrite (vget_vupd_same v _ (vols s) vl) in G2; [|reflexivity|exact G].
-    injection G2 as <-. cbn. eapply sget_sset_same; eauto. }
-  eapply (inv_wr s1 v i None (-1) vl2 (Some r) s2); eauto.
-  apply inj_clear; auto.
+  split; [|split; [reflexivity|split; [reflexivity|split; [exact V|]]]].
+  - eapply (inv_wr (add_known r s) v' i' (Some r) 1 vl None s1'); eauto.
+    + now rewrite add_known_vols.
+    + rewrite add_known_vols. apply inj_place; auto.
+  - exists vl; split; [exact G|split; [exact S|]]. now rewrite add_known_vols in Hv.
+Qed.
+
+Lemma slots_of_sget v i s x : sget i (slots_of v s) = Some x ->
+  exists vl, vget v (vols s) = Some vl /\ sget i (vslots vl) = Some x.
+Proof.
+  unfold slots_of. destruct (vget v (vols s)) as [vl|]; [eauto|discriminate].
+Qed.
+
+Lemma inv_rollback r v i s1 : inv s1 -> inv (fst (rollback r v i s1)).
+Proof.
+  intros I. unfold rollback.
+  destruct (sget i (slots_of v s1)) as [[r'|]|] eqn:S; try exact I.
+  destruct (r' =? r)%N eqn:E; [|exact I]. apply N.eqb_eq in E; subst r'.
+  apply slots_of_sget in S as [vl [G S]].
+  destruct (vol_usage v (-1) (set_slot v i None s1)) as [s2| |] eqn:U; cbn; try exact I.
+  apply usage_set_slot in U as [vl2 [G2 [_ [Hv2 [Hm2 [_ [Ht2 Hc2]]]]]]].
+  rewrite G in G2; injection G2 as <-.
+  eapply (inv_wr s1 v i None (-1) vl (Some r) s2); eauto. apply inj_clear; auto.
+Qed.
+
+Lemma inv_store r loc ok s : inv s -> inv (fst (store r loc ok s)).
+Proof.
+  intros I. unfold store. destruct (reserve r loc s) as [| |s1 v i|o|] eqn:R; cbn; auto.
+  - now apply inv_add_known.
+  - destruct (reserve_placed r loc s s1 v i I R) as [I1 _].
+    destruct ok; cbn; [exact I1|now apply inv_rollback].
 Qed.
 
 Lemma fin_inv s r : inv s -> (forall s', r = Ok s' -> inv s') -> inv (fst (fin s r)).
@@ -253,6 +275,14 @@ Proof.
   assert (I1 : inv s1).
   { eapply (inv_wr s v j None (-1) vl (Some r) s1); eauto. apply inj_clear; auto. }
   destruct I1 as [? ? ? ? ? ? ? ?]; constructor; cbn; auto; lia.
+Qed.
+
+Lemma inv_store_removed r loc s : inv s -> inv (fst (store_removed r loc s)).
+Proof.
+  intros I. unfold store_removed. destruct (reserve r loc s) as [| |s1 v i|o|] eqn:R; cbn; auto.
+  destruct (reserve_placed r loc s s1 v i I R) as [I1 _].
+  destruct (remove_sector r s1) as [s2| |] eqn:M; cbn; auto.
+  apply inv_rollback. eapply inv_remove_sector; eauto.
 Qed.
 
 Lemma inv_prune_one v i s s' : inv s -> prune_one v i s = Ok s' -> inv s'.
@@ -696,10 +726,10 @@ Proof.
       pose proof (pslots_le (is_root r) f (vslots vl) (is_root_nonneg r) eq_refl). lia.
 Qed.
 
-Lemma inv_prune all s s' : inv s -> prune all s = Ok s' -> inv s'.
+Lemma inv_prune_with f s s' : inv s -> prune_with f s = Ok s' -> inv s'.
 Proof.
-  intros I. unfold prune. destruct all; cbn [negb]; [|now intros [= <-]].
-  destruct (prune_vols (refd s) (vols s)) as [[vs n]| |] eqn:P; cbn [bind]; try discriminate.
+  intros I. unfold prune_with.
+  destruct (prune_vols f (vols s)) as [[vs n]| |] eqn:P; cbn [bind]; try discriminate.
   destruct (stat_inc _ _) as [p| |] eqn:S; cbn [bind]; try discriminate. intros [= <-].
   apply stat_inc_ok in S; subst p.
   destruct (prune_vols_ok _ _ _ _ P) as [H1 [H2 [H3 [H4 [H5 H6]]]]].
@@ -708,6 +738,11 @@ Proof.
   - intros r. specialize (H6 r). specialize (I3 r). unfold gcnt in *. lia.
   - lia.
   - lia.
+Qed.
+
+Lemma inv_prune all s s' : inv s -> prune all s = Ok s' -> inv s'.
+Proof.
+  intros I. unfold prune. destruct all; cbn [negb]; [|now intros [= <-]]. now apply inv_prune_with.
 Qed.
 
 (** * Every step preserves the invariant *)
@@ -721,8 +756,10 @@ Proof.
   - cbn. apply inv_set_flag; auto.
   - cbn. apply inv_set_flag; auto.
   - now apply inv_store.
+  - now apply inv_store_removed.
   - now apply inv_migrate.
   - apply fin_inv; auto. intros; eapply inv_remove_sector; eauto.
+  - exact I.
   - exact I.
   - exact I.
   - apply fin_inv; auto. intros; eapply inv_add_temps; eauto.
